@@ -38,6 +38,25 @@ def _zero(st, r):
     return st.truth.get(("icmp", "eq", r, ("c", 0))) is True or st.hi.get(r, 1) == 0 or r == ("c", 0)
 
 
+def size_core(prog, eff, cache, name="cbor_serialized_size"):
+    """The routine that holds the sizing cases: cbor_serialized_size itself, or - when that is a wrapper whose every
+    path returns the unmodified result of one call of a recursive unit-internal routine on its item - that routine
+    (the item must stay its first parameter).  Returns (function, set of names a recursive sizing call may use)."""
+    f = prog.fn(name)
+    tgt = set()
+    for pa in cache.get(f.name, inline_static=True):
+        r = pa.ret
+        ev = [e for e in pa.events if e.kind == "call" and e.res == r] if isinstance(r, tuple) and r[0] == "call" else []
+        if not (ev and ev[0].callee in prog.funcs and prog.funcs[ev[0].callee].internal and ev[0].args and ev[0].args[0] == ("arg", 0)
+                and ev[0].callee in eff.transitive_callees(ev[0].callee)):
+            return f, {name}
+        tgt.add(ev[0].callee)
+    if len(tgt) == 1:
+        g = prog.funcs[tgt.pop()]
+        return g, {name, g.name}
+    return f, {name}
+
+
 def subjects(prog):
     unit = prog.fn("cbor_serialize").unit
     out = []
